@@ -205,8 +205,30 @@ def gen(rng, tier):
            ' '.join('%d:%d:%s:f:x.cpp:%d:p:%d:%d' % (i % 4, i % 8, 'ab'[i % 2], i, i % 50, i) for i in range(120)), 'off 2']
     yield ['color 1 1', 'sink sout', 'sink aout 7 1 1 1', 'sink syslog 0 1 1 1', 'color 1 2', 'wfault', 'wfault x', 'runc 2 1 0:5:a:f:x.cpp:1:p:3:1',
            'runc 1 1 max,5 0:5:a:f:x.cpp:1:p:3:1', 'run 1 0:5:a:f:x.cpp:1:p:3:1', 'color 1 1', 'off 1', 'color 1 1', 'runc 1 1 frob,1 0:5:a:f:x.cpp:1:p:3:1']
+    for c in paced_cases(rng):
+        yield c
     for _ in range(n):
         yield gen_case(rng, tier)
+
+
+def paced_cases(rng):
+    """timed flush of the async pipe (interval 1 ms) while 1-2 threads log at a low, jittered rate: the back end takes the current
+    buffer on its timeout, which must not happen in the middle of a front-end append (pipe mutex); small and near-maximum records"""
+    def specs(T, n, lens):
+        return ' '.join('%d:%d:%s:f:x.cpp:%d:%s:%d:%d' % (i % T, 1 + i % 7, 'ab'[i % 2], i, 'ps'[i % 2], rng.choice(lens), rng.randrange(1000)) for i in range(n))
+    yield ['sink file 1048576 10240 2 20 1', 'runp 1 1000 ' + specs(1, 150, [0, 5, 40, 300]), 'off 1']
+    yield ['sink aout 10240 2 20 1', 'sink rec', 'runp 2 1500 ' + specs(2, 160, [1, 30, 2048, 2049]), 'off 1']
+    yield ['sink syslog 1024 1 5 1', 'sink file 4096 1000000 2 2 1', 'runp 2 800 ' + specs(2, 160, [3, 64, 500]), 'off 1', 'off 2']
+    # big records near the (raised) maximum, big pipe buffers: a long memcpy per append
+    yield ['max 200000', 'sink file 1048576 1000000 2 4 1', 'runp 1 1200 ' + specs(1, 40, [199990, 200000, 200000, 150000]), 'off 1']
+    yield ['max 200000', 'sink aout 1000000 1 3 1', 'color 1 1', 'runp 2 1000 ' + specs(2, 40, [200000, 100, 180000]), 'off 1']
+
+
+def gen_tsan_quick(rng, tier):
+    for c in paced_cases(rng):
+        yield c
+    yield ['sink rec', 'sink file 100000 100 2 5 1', 'lvl 1 a 3',
+           'runc 4 4 unset,1,a lvl,1,a,7 unset,1,a max,102400 ' + ' '.join('%d:%d:%s:f:x.cpp:%d:p:%d:%d' % (i % 4, i % 8, 'ab'[i % 2], i, i % 50, i) for i in range(120)), 'off 2']
 
 
 def gen_tsan(rng, tier):
@@ -214,6 +236,8 @@ def gen_tsan(rng, tier):
     yield ['sink rec', 'sink file 100000 100 2 5 5', 'lvl 1 a 3', 'lvl 2 b 6',
            'runc 4 6 unset,1,a lvl,2,*,2 lvl,1,a,7 unset,2,b lvl,1,*,-1 max,102400 ' +
            ' '.join('%d:%d:%s:f:x.cpp:%d:p:%d:%d' % (i % 4, i % 8, 'ab'[i % 2], i, i % 50, i) for i in range(160)), 'off 2']
+    for c in paced_cases(rng):
+        yield c
     for _ in range(140):
         yield gen_case(rng, 'quick', conc=0.6)
 
@@ -269,11 +293,43 @@ def extra_coverage():
     return {'tsan_pass': dict(_tsan_summary)} if _tsan_summary else {}
 
 
+def tsan_quick_pass(seed):
+    """a handful of directed cases under ThreadSanitizer (paced logging against the 1 ms timed flush, reconfiguration while logging):
+    the cheapest reliable detector of an unsynchronised pipe / sink access.  Returns 1 if a violation was printed."""
+    import random
+    ok, _ = vlib.lean_build([EXE])
+    exe, hlog = vlib.build_harness(ID, SOURCES, os.path.join(vlib.VERIF, 'props', ID, 'harness.cpp'), 'tsan', (), LIBS)
+    if not ok or exe is None:
+        return 0          # the main pass reports build problems
+    rng = random.Random('%s:tsanq:%d' % (ID, seed))
+    cases = {i: list(o) for i, o in enumerate(gen_tsan_quick(rng, 'quick'))}
+    impl, st = vlib.run_harness_cases(exe, cases, timeout_per_batch=120, batch=1)
+    model = vlib.run_driver_cases(EXE, {i: cases[i] + ['T ' + l for l in impl.get(i, [])] + ['end'] for i in cases})
+    rep = vlib.Report(ID)
+    bad_n = 0
+    for i in sorted(cases):
+        bad = [l for l in model.get(i, ['reject no model output']) if l.startswith('reject')]
+        if not bad:
+            continue
+        bad_n += 1
+        d = ('P', bad[0], 'accept')
+        fp = fingerprint(cases[i], d)
+        body = vlib.case_text(0, cases[i]) + '# ThreadSanitizer pass of the quick tier, seed=%d case=%d\n# implementation: %s\n# model/spec   : accept\n%s' % (
+            seed, i, bad[0], ''.join('# ' + l + '\n' for l in st.get('crash_stderr', '').splitlines()[:40]))
+        path = vlib.write_replay(ID, 'tsan-' + fp + '.ops', body)
+        rep.violation('tsan-' + fp, path, 'impl=%r expected=accept (ThreadSanitizer build) ops=%r' % (bad[0][:200], [o[:120] for o in cases[i][:4]]))
+    _tsan_summary.update({'flavour': 'tsan', 'cases': len(cases), 'crashes': st.get('crashes'), 'violations': len(rep.violations),
+                          'paced_cases': sum(1 for c in cases.values() if any(o.startswith('runp') for o in c))})
+    return 1 if rep.violations else 0
+
+
 def check(tier, seed, replay=None):
     g = {k: v for k, v in globals().items() if k != 'check'}
     P = types.SimpleNamespace(**g)
     rc_t = 0
     try:
+        if tier == 'quick' and not replay:
+            rc_t = tsan_quick_pass(seed)
         if tier == 'thorough' and not replay:
             # ThreadSanitizer pass first (its evidence is folded into the main run's evidence below)
             gt = dict(g); gt.update(FLAVOUR='tsan', gen=gen_tsan, BATCH=20)
